@@ -456,7 +456,7 @@ def c16(ctx):
     load_replay(ctx)
     L, NR = ctx.q((4, 1500), (6, 40000))
     # the matrix builds are compiled with -DRWEATHER_TINYJAMBU_VERIF (counter hook); the cmake production build is not
-    builds = build_set(ctx, ctx.q(["prod", "gcc-O2", "asan-gcc"], ["prod", "gcc-O0", "gcc-O2", "clang-O3", "asan-gcc"]))
+    builds = build_set(ctx, ctx.q(["prod", "gcc-O2", "clang-O2", "gcc-O3+DNDEBUG", "asan-gcc"], ["prod", "gcc-O0", "gcc-O2", "gcc-Os", "clang-O2", "clang-O3", "gcc-O3+DNDEBUG", "clang-O3+DNDEBUG", "asan-gcc", "asan-clang"]))
     if ctx.thorough:
         # the 1.1 M-sequence enumeration runs on the production object; other builds take length <= 5
         run_harness_on(ctx, "h_prng.c", builds[:1], ["--mode", "budget", "--p1", L, "--p3", NR], 16, timeout=3000, hname="h_prng-b")
@@ -469,7 +469,7 @@ def c16(ctx):
                 "65536,3000,1 MiB,1 MiB+1,SIZE_MAX} and generate sizes up to 70000 (every 17th run up to 5 MiB). Monitor: bytes emitted since the last "
                 "entropy request (callback event; its byte offset inside generate is recovered from a sentinel pre-fill) never exceed 32*max(1,ceil(min(limit,"
                 "1 MiB)/32)) for the limit in force, evaluated after every non-empty emitted segment. Twin monitor: a byte copy of the state with one extra "
-                "feed requests entropy no later than the original. (c) with the RWEATHER_TINYJAMBU_VERIF hook (matrix builds): the 32-bit block counter is placed 0..4 below the top of its range - the state reached by ~2^32 feeds, hours through the API - followed by 0..8 feeds x limits {0, 64, 1024, 1 MiB} under the same budget and twin monitors. class = sequence index.")
+                "feed requests entropy no later than the original. (c) with the RWEATHER_TINYJAMBU_VERIF hook (matrix builds): the 32-bit block counter is placed 0..4 below the top of its range - the state reached by ~2^32 feeds, hours through the API - followed by 0..8 feeds x limits {0, 64, 1024, 1 MiB} under the same budget and twin monitors; and at 2^k-2..2^k+2 for k in {8,15,16,20,24,26..31} after 0, 1 or a full limit of blocks generated through the API (the states reached by 2^k feeds: minutes to hours through the API). class = sequence index.")
     ctx.exhaustive = False
     ctx.extra_cov["exhaustive_subspace"] = "all %d-operation-alphabet sequences of length <= %d on the production object" % (10, L)
 
